@@ -126,6 +126,20 @@ class FileWrapper(object):
         self.closed_calls = 0
         if hasattr(filelike, 'close'):
             self.close = self._close
+        self._fd_bytes = None
+        if self.USE_FILENO and hasattr(filelike, 'fileno'):
+            # sendfile-style servers (gunicorn, uWSGI): when the object exposes a file
+            # descriptor they transmit from its current offset to the end of the file
+            try:
+                import os
+                fd = filelike.fileno()
+                pos = os.lseek(fd, 0, os.SEEK_CUR)
+                size = os.fstat(fd).st_size
+                self._fd_bytes = os.pread(fd, max(0, size - pos), pos)
+            except Exception:
+                self._fd_bytes = None
+
+    USE_FILENO = False
 
     def _close(self):
         self.closed_calls += 1
@@ -135,10 +149,20 @@ class FileWrapper(object):
         return self
 
     def __next__(self):
+        if self._fd_bytes is not None:
+            data, self._fd_bytes = self._fd_bytes[:self.blksize], self._fd_bytes[self.blksize:]
+            if data:
+                return data
+            raise StopIteration
         data = self.filelike.read(self.blksize)
         if data:
             return data
         raise StopIteration
+
+
+class SendfileWrapper(FileWrapper):
+    """wsgi.file_wrapper of a server that uses the descriptor when there is one."""
+    USE_FILENO = True
 
 
 _HOP = frozenset(['connection', 'keep-alive', 'proxy-authenticate', 'proxy-authorization',
